@@ -127,6 +127,7 @@ func (c *Ctx) Fail(f Failure) {
 // current guarded case, read by the watchdog.
 var (
 	curDesc     atomic.Value // string
+	curUnit     atomic.Int64
 	curStartCPU atomic.Int64 // ns of process CPU time at start of the case; 0 = idle
 	curBudget   atomic.Int64 // ns
 )
@@ -182,9 +183,10 @@ func (c *Ctx) Guard(desc string, f func()) (pi *PanicInfo, skipped bool) {
 		return nil, true
 	}
 	if c.mark {
-		markOut(desc)
+		markOut(c.Unit, desc)
 	}
 	curDesc.Store(desc)
+	curUnit.Store(c.Unit)
 	curStartCPU.Store(cpuNow())
 	defer func() {
 		curStartCPU.Store(0)
